@@ -4,10 +4,10 @@ Model of redun's configuration object (property C35).  Core Lean only.  Text is 
 Mirrors, as they are in /repo (plus the proposed repair, see `getConfigDict`):
   * `configparser.ExtendedInterpolation._interpolate_some` / `before_get` / `before_set` (Python 3.12 source)
     with `RedunExtendedInterpolation.before_get` (environment variables take part in `${name}` lookups)
-                                                          → `loop`, `getItem`, `beforeSet`
+                                                          → `loop`, `getItem`, `beforeSetOk`
   * `RawConfigParser.get / options / read_dict / set`    → `rawGet`, `sectionKeys`, `readDict`
   * `Config._parse_sections`                             → `insertPath`, `parseSections`
-  * `Config.get_config_dict` (`convert_to_dict`, `substitute_config_dir`) → `flatten`, `getConfigDict`
+  * `Config.get_config_dict` (`convert_to_dict`, `substitute_config_dir`) → `flattenKids`, `replaceAll`, `getConfigDict`
 INI text parsing (`read_string`) is outside the model: a configuration is the parser's raw option table.
 -/
 namespace RedunModel.Config
@@ -269,8 +269,8 @@ def parseSections : List Str → List (Str × Node) → Except Err (List (Str ×
 
 mutual
 /-- `convert_to_dict(path, obj)`: (constructed dotted path, real section name) of every leaf, depth first.
-`path = none` is the root (the repair: the original code used `""` for the root and tested `if path`, which
-also dropped a leading empty component: `[.c]` came out as `c`). -/
+In `flattenKids`, `path = none` is the root (the repair: the original code used `""` for the root and tested
+`if path`, which also dropped a leading empty component: `[.c]` came out as `c`). -/
 def flattenNode (path : Str) : Node → List (Str × Str)
   | .leaf full => [(path, full)]
   | .node kids => flattenKids (some path) kids
